@@ -708,6 +708,11 @@ impl Debugger {
     ///
     /// **! change exploration context**
     pub fn restart_debugee(&mut self) -> Result<Pid, Error> {
+        self.restart_debugee_with_reason().map(|(pid, _)| pid)
+    }
+
+    /// Like [`Self::restart_debugee`], but also tells why the new debugee stopped.
+    fn restart_debugee_with_reason(&mut self) -> Result<(Pid, StopReason), Error> {
         match self.debugee.execution_status() {
             ExecutionStatus::Unload => {
                 // all breakpoints and watchpoints already disabled by default
@@ -746,8 +751,8 @@ impl Debugger {
 
         self.hooks.on_process_install(self.process.pid(), None);
         self.expl_context = ExplorationContext::new_non_running(self.process.pid());
-        self.continue_execution()?;
-        Ok(self.process.pid())
+        let reason = self.continue_execution()?;
+        Ok((self.process.pid(), reason))
     }
 
     fn start_debugee_inner(&mut self, force: bool, dry_start: bool) -> Result<(), Error> {
@@ -804,10 +809,11 @@ impl Debugger {
         match self.debugee.execution_status() {
             ExecutionStatus::Unload => self.continue_execution(),
             ExecutionStatus::InProgress | ExecutionStatus::Exited => {
-                self.restart_debugee()?;
-                // restart_debugee itself continues execution until the next stop.
-                // If it returns successfully, we are already stopped; map this to a synthetic reason.
-                Ok(StopReason::DebugeeStart)
+                // restart itself continues execution until the next stop: report that stop
+                // (a breakpoint, a signal or the exit), not a synthetic one, so that the
+                // caller can treat it like any other stop
+                let (_, reason) = self.restart_debugee_with_reason()?;
+                Ok(reason)
             }
         }
     }
